@@ -47,6 +47,7 @@ func TestMain(m *testing.M) {
 		"fewer/more than three core segments (padded/jagged comparison), 'v' prefix, leading zeros, pre-release without dash (1.0.0rc1), '~' and trailing '-' identifiers. On the generated shapes (identifiers alpha, beta, rc.1, rc.2, rc.10, Beta, RC.1) the two agree by documentation; TestComparerAgreesWithOracleOnGrid re-checks it. " +
 		"Unparsable strings are a fixed junk list rejected by both the oracle parser and the comparer (TestJunkIsRejected). The custom integer comparer is strconv.Atoi based and trusted. " +
 		"A range with neither bound set counts as 'no range' (never contains anything, needs no comparison, is not malformed): intended behaviour of the package (comment in versionRange.go contains, pinned by its unit test TestVersionRange_contains/'no bound set'); the statement's 'a missing bound is unbounded' is applied to ranges with exactly one missing bound. The shape is generated everywhere and labelled range-without-bounds")
+	vh.Rule("also: pre-release identifiers -Beta, -RC.1 (upper case sorts first); 23 versions with segments of several digits (1.0.1 / 11.0.0 / 1.0.11, 9 / 10, 99 / 100) compared pairwise in every process, forwards and backwards")
 	vh.Main(m, "C19")
 }
 
